@@ -5,10 +5,16 @@ from .common import Failure, f2h, h2f, parse_reply
 ID = "C10"
 BIN = "c10"
 PROOF_MODULES = ["Compute.Props.C10", "Compute.Lemmas.C10", "Compute.Lemmas.C10LM", "Compute.Lemmas.C10LMAlg",
-                 "Compute.Lemmas.C10Tape"]
+                 "Compute.Lemmas.C10Tape", "Compute.Props.C10Review"]
 REQUIRED_THEOREMS = ["Cv.C10.adam_refines", "Cv.C10.adam_prefix", "Cv.C10.sgd_refines", "Cv.C10.sgd_prefix",
                      "Cv.C10.stop_only_when_still", "Cv.C10.runLoop_eq_iter", "Cv.C10.lm_accept_decreases",
-                     "Cv.C10.lm_pred_nonneg", "Cv.C10.lm_descends", "Cv.C10.lm_never_worse", "Cv.C10.lm_covariance",
+                     "Cv.C10.lm_pred_nonneg",
+                     # review B1: lm_descends / lm_never_worse / lm_covariance assumed EvalLaws (unsatisfiable for the tape
+                     # evaluator); renamed *_idealEval, no longer required; replaced by the C10R theorems below
+                     "Cv.C10R.lm_core_sublevel", "Cv.C10R.lmG_descends_on_sublevel",
+                     "Cv.C10R.lm_descends_on_sublevel_of_nonsingular", "Cv.C10R.lm_descends_on_sublevel",
+                     "Cv.C10R.lmFinish_at_n_eq_p", "Cv.C10R.invOf_right_inverse", "Cv.C10R.lm_covariance_is_inverse",
+                     "Cv.C10R.adam_follows_published_rule_on_run", "Cv.C10R.sgd_follows_published_rule_on_run",
                      "Cv.C10.tape_gradient_correct_partial", "Cv.AD.gradAt_ring_correct"]
 RULE = ("trajectories: optimize with maxsteps = 1..K (K up to 200 quick / 2000 thorough) for Adam and SGD "
         "(plain, momentum, Nesterov) on convex / non-convex quadratics in 1..8 dimensions, Rosenbrock, least-squares "
@@ -22,14 +28,23 @@ NOT_PROVED = [
     "chain rule of the tape for the node kinds / powi exp sin (and the wrong weight of constant/variable: finding "
     "reverse:f64-div-var-weight); the tape theorem covers + - * neg, constants, data point and parameters",
     "that tapeEval satisfies EvalLaws (residuals / Jacobian are functions of the parameter values only) and that the "
-    "LU solve is exact: hypotheses of lm_descends (true in exact arithmetic for non-singular damped normal equations)",
+    "LU solve is exact: hypotheses of lm_descends_idealEval (an idealised evaluator; the tape evaluator does NOT satisfy them)",
     "floating-point rounding: theorems are about the model over fields / ordered fields / commutative rings; the f64 "
     "behaviour is covered by the bit-exact correspondence and the oracle",
 ]
 TRUSTED = ["Lean Float + - * / sqrt exp sin cos and square-and-multiply powi agree bit for bit with Rust f64 (measured)",
            "shared models Cv.matmul (C05) and Cv.LA.lu / luSolve (C01/C11) for Matrix::t_dot, Matrix::lu, lu_solve"]
 ASSUMPTIONS = ["budgets below 2^31 steps (t as i32 wraps beyond; hypothesis of adam_refines)",
-               "default cargo features (no blas/lapack)"]
+               "default cargo features (no blas/lapack)",
+               "LM theorems require p < n (at n = p the code divides by (n - p) as f64 = 0: inf/NaN covariance, "
+               "lmFinish_at_n_eq_p; n < p panics) and tau >= 0",
+               "stop_only_when_still is a theorem over ordered fields (abs, max as in StopLaws); in f64 a NaN relative "
+               "change is dropped by f64::max (statistics::max folds from NaN), so a run can stop while a coordinate is "
+               "inf/NaN (witness in corpus(): SGD lr 1 on 1e200 p0^2 + (p1-1)^2 from [1e200, 1] returns [-inf, 1] for "
+               "every budget); overflowed runs are outside the quantifier and are tied by correspondence only",
+               "determinism is a statement about the real code (a RefCell tape inside the optimizer object could leak "
+               "between calls): it is observed, not proved -- repeated requests, and the routes used_clone / reuse "
+               "(second call on a used object) must give bit-identical replies; the model is a function"]
 IMPL_TIMEOUT = 1200
 MODEL_TIMEOUT = 1800
 
@@ -360,6 +375,10 @@ def corpus():
     L.append(line_sgd(0.5, 0.0, False, [1.0], range(1, 11), mul(C(2.0 ** -51), P(0))))
     L.append(line_sgd(0.5, 0.5, False, [2.0 ** 51], range(1, 11), mul(C(1.0), P(0))))
     L.append(line_sgd(0.5, 0.0, False, [4.0], range(1, 11), mul(C(2.0 ** -52), powi(P(0), 2))))
+    # review C3: `f64::max` drops a NaN relative change: p0 overflows to -inf at step 1 (rel_change = inf/inf = NaN)
+    # while p1 sits on its minimiser, so the run "converges" at step 1 and returns [-inf, 1] for every budget although
+    # the recurrence would go on to NaN; covered by correspondence only (the ordered-field theorem has no NaN)
+    L.append(line_sgd(1.0, 0.0, False, [1e200, 1.0], range(1, 6), add(mul(C(1e200), powi(P(0), 2)), powi(sub(P(1), C(1.0)), 2))))
     # Adam::new rejects beta <= 0
     L.append(line_adam(0.1, 0.0, 0.999, 1e-8, [1.0], [1], sq))
     L.append(line_adam(0.1, 0.9, -0.5, 1e-8, [1.0], [1], sq))
@@ -576,11 +595,11 @@ def contraction_to_origin(rng, count, cover, Kmax):
     return L
 
 
-ADAM_ROUTES_CFG = ["clone", "clone2", "used_clone", "set_stepsize", "clone_set"]
+ADAM_ROUTES_CFG = ["clone", "clone2", "used_clone", "reuse", "set_stepsize", "clone_set"]
 ADAM_ROUTES_DEF = ["default", "with_stepsize", "default_set", "with_stepsize_clone"]
-SGD_ROUTES_CFG = ["clone", "used_clone", "set_stepsize", "clone_set"]
+SGD_ROUTES_CFG = ["clone", "used_clone", "reuse", "set_stepsize", "clone_set"]
 SGD_ROUTES_DEF = ["default", "default_set", "default_clone"]
-LM_ROUTES_CFG = ["clone", "fields", "fields_clone"]
+LM_ROUTES_CFG = ["clone", "reuse", "fields", "fields_clone"]
 LM_ROUTES_DEF = ["default", "default_clone"]
 
 
@@ -1484,3 +1503,35 @@ NOT_PROVED = [x for x in NOT_PROVED if not str(x).startswith('LM convergence')] 
 PROOF_MODULES = PROOF_MODULES + [m for m in ['Compute.Lemmas.Rounding8', 'Compute.Props.Rounding8'] if m not in PROOF_MODULES]
 REQUIRED_THEOREMS = REQUIRED_THEOREMS + ["Cv.Rounding8.LMrun.lmBody_cases'", 'Cv.Rounding8.LMrun.pass_step', 'Cv.Rounding8.LMrun.pass_linear', 'Cv.Rounding8.LMrun.lmLoop_linear', 'Cv.Rounding8.LMrun.linInv_start', 'Cv.Rounding8.LMrun.stop_eps1', 'Cv.Rounding8.LMrun.stop_eps2', 'Cv.Rounding8.LMrun.errA_le_of_grad', 'Cv.Rounding8.LMrun.weighted_cs']
 NOT_PROVED = list(NOT_PROVED) + ["the model's LM loop itself is covered on linear models (Props/Rounding8, namespace LMrun): for an evaluator that is a linear model (LinModel) every pass of lmBody keeps the invariant mu <= max(mu_0, 2), a step is rejected only at a least-squares solution, and lmLoop returns a state with ||theta - theta*||^2_A <= q^fuel ||theta_0 - theta*||^2_A, q = Lam kappa/(1+Lam kappa), unless a stop test fired; stopped by eps1: sum |J^T(y - J theta)| <= eps1, stopped by eps2: (J^T r)_i^2 <= ||B_i||^2 (eps2(||theta|| + eps2))^2, both giving ||theta - theta*||^2_A <= kappa sum g_i^2/d_i; kappa (D <= kappa J^T J, i.e. full column rank) is a hypothesis; nonlinear models and floating point are oracle only"]
+
+# --- review repairs (C10 owner, after out/review/review-b.md): claim sentences rewritten to what is shown
+def _reword(x):
+    x = str(x)
+    if x.startswith("adam/sgd_follows_published_rule assume"):
+        return ("Adam / SGD with the TRUE gradient: adam/sgd_follows_published_rule_on_run (Props/C10Review) need the "
+                "objective inside its domain of differentiability (non-zero divisors, non-zero bases of negative powers) "
+                "only at the points where the run takes a gradient (iterates 0..k-1, look-ahead points for Nesterov); "
+                "that condition is a hypothesis, not derived from the start")
+    if x.startswith("LM descent is unconditional"):
+        return ("LM descent (rss(result) <= rss(start), covariance = rss/(n-p) * inverse of J^T J at the returned point) is "
+                "proved for the tape evaluator of the source under hypotheses ON THE SUBLEVEL SET rss(theta) <= rss(start) "
+                "only (Props/C10Review: lm_descends_on_sublevel needs tau > 0, 1 <= p < n and no vanishing Jacobian column "
+                "there; lm_descends_on_sublevel_of_nonsingular needs the damped normal matrix non-singular there); starts "
+                "where a column vanishes (e.g. p0*exp(p1*x) at p0 = 0, logistic at L = 0) are NOT covered by a theorem; "
+                "invOf is shown to be the inverse only for a non-singular J^T J (invOf_right_inverse)")
+    if x.startswith("LM convergence on models linear in the parameters IS proved"):
+        return ("LM convergence on models linear in the parameters: Props/Rounding7 (namespace LM) proves, over the reals with "
+                "an exact solver, the mathematics of one damped step (fixed points = least-squares solutions, strict decrease, "
+                "error recursion, geometric rate); it is tied to lmBody by step_of_model FOR AN IDEALISED EVALUATOR satisfying "
+                "EvalLaws (not the tape evaluator of the source: tapeEval_not_evalLaws); there is no theorem that lm / "
+                "LM::optimize reaches the least-squares solution -- that clause is searched by the oracle (exact solve, "
+                "contraction-rate bound), not proved")
+    if x.startswith("the model's LM loop itself is covered on linear models"):
+        return ("Props/Rounding8 (namespace LMrun): loop skeleton of lmLoop with an idealised evaluator satisfying EvalLaws "
+                "(LinModel.laws; NOT the tape evaluator): invariant mu <= max(mu_0, 2), contraction bound q^fuel unless a stop "
+                "test fired, bounds when eps1 / eps2 fired (the firing is a hypothesis); kappa (full column rank) is a "
+                "hypothesis; no end-to-end statement about lm")
+    return x
+
+
+NOT_PROVED = [_reword(x) for x in NOT_PROVED if not str(x).startswith("that tapeEval satisfies EvalLaws")]
